@@ -115,6 +115,17 @@ func (e *env) sencCases(r *hx.Rng, n int, next func() string) {
 		key := r.Bytes(16, nil)
 		iv := genIV(r, r.Pick(8, 16))
 		o := fragOpts{extraMoof: r.Pick(0, 1, 2), extraTraf: r.Pick(0, 1, 2, 3), moofBefore: r.Bool(), wide: genWide(r, false)}
+		// now and then the clear traf already carries a seig sample group (per-sample IV size 16 or 8): ParseReadSenc
+		// lets it override the tenc IV size
+		seig := "-"
+		switch r.Intn(8) {
+		case 0:
+			o.wide.traf |= 1 << 11
+			seig = "16"
+		case 1:
+			o.wide.traf |= 1 << 12
+			seig = "8"
+		}
 		// the model's input: sample lengths and the protection ranges, computed independently of the fragment
 		desc := make([]string, ns)
 		okIn := true
@@ -134,7 +145,7 @@ func (e *env) sencCases(r *hx.Rng, n int, next func() string) {
 		}
 		fr := e.runFragment(codec, scheme, key, iv, samples, o, r)
 		if fr.class != "ok" {
-			emit("E", next(), scheme, hx.Hex(iv), strings.Join(desc, ";"), "-", "-", "0", "16", fr.class)
+			emit("E", next(), scheme, hx.Hex(iv), strings.Join(desc, ";"), "-", "-", "0", "16", seig, fr.class)
 			continue
 		}
 		seg := mp4.NewMediaSegmentWithoutStyp()
@@ -143,7 +154,7 @@ func (e *env) sencCases(r *hx.Rng, n int, next func() string) {
 		must(fr.init.Init.Encode(&buf))
 		var err error
 		if p := hx.Try(func() { err = seg.Encode(&buf) }); p != "" || err != nil {
-			emit("E", next(), scheme, hx.Hex(iv), strings.Join(desc, ";"), "-", "-", "0", "16", "encode-"+classOf(p, err))
+			emit("E", next(), scheme, hx.Hex(iv), strings.Join(desc, ";"), "-", "-", "0", "16", seig, "encode-"+classOf(p, err))
 			continue
 		}
 		raw := buf.Bytes()
@@ -189,7 +200,7 @@ func (e *env) sencCases(r *hx.Rng, n int, next func() string) {
 		// of the moov), then ParseReadSenc on the moof decoded alone, with the tenc IV size and with 0 / 8 / 16
 		dec, err := mp4.DecodeFile(bytes.NewReader(raw))
 		if err != nil || len(dec.Segments) != 1 || len(dec.Segments[0].Fragments) != 1 {
-			obs = append(obs, "decode-err")
+			obs = append(obs, "err")
 		} else {
 			traf := dec.Segments[0].Fragments[0].Moof.Traf
 			if has, parsed := traf.ContainsSencBox(); has && parsed {
@@ -218,7 +229,7 @@ func (e *env) sencCases(r *hx.Rng, n int, next func() string) {
 			obs = append(obs, st)
 		}
 		emit("E", next(), scheme, hx.Hex(iv), strings.Join(desc, ";"), hx.Csv(before), strings.Join(trafc, ","),
-			strconv.Itoa(moof.start), strconv.Itoa(int(tencIV)), strings.Join(obs, "|"))
+			strconv.Itoa(moof.start), strconv.Itoa(int(tencIV)), seig, strings.Join(obs, "|"))
 	}
 }
 
